@@ -93,10 +93,20 @@ def write_tmp(obj, prefix="spec"):
     return path
 
 
-def load_spec(obj, **kw):
-    """Spec.from_yaml on a generated description (dict or YAML text)."""
+def load_spec(obj, fixed_path=None, **kw):
+    """Spec.from_yaml on a generated description (dict or YAML text).  `fixed_path`: write the YAML there and keep it
+    (the Spec records the path it was loaded from, and that record is part of the pmapping cache key - a user who
+    re-runs a script loads the same file again)."""
     from accelforge.frontend.spec import Spec
 
+    if fixed_path is not None:
+        text = dumps(obj) if not isinstance(obj, str) else obj
+        if not os.path.exists(fixed_path) or open(fixed_path).read() != text:
+            tmp = fixed_path + f".{os.getpid()}.tmp"
+            with open(tmp, "w") as f:
+                f.write(text)
+            os.replace(tmp, fixed_path)
+        return Spec.from_yaml(fixed_path, **kw)
     path = write_tmp(obj)
     try:
         return Spec.from_yaml(path, **kw)
